@@ -10,6 +10,7 @@ mod mdline;
 mod verify;
 mod filter;
 mod cfg;
+mod filereader;
 
 fn dispatch(op: &str, arg: &Value) -> Result<Value, String> {
     match op {
@@ -18,6 +19,7 @@ fn dispatch(op: &str, arg: &Value) -> Result<Value, String> {
         "chash" => chash::op_chash(arg),
         "sync" => sync::op_sync(arg),
         "filter" => filter::op_filter(arg),
+        "filereader" => filereader::op_filereader(arg),
         "cfgload" => cfg::op_cfgload(arg),
         "cfgpath" => cfg::op_cfgpath(arg),
         "verify" => verify::op_verify(arg),
